@@ -54,6 +54,7 @@ type Spec struct {
 	Union       string      `json:"union,omitempty"`
 	HasUnion    bool        `json:"has_union,omitempty"`
 	Tokens      []TokDecl   `json:"tokens"`
+	LateTokens  []TokDecl   `json:"late_tokens,omitempty"` // %token lines written after the precedence lines
 	Prec        []PrecLevel `json:"prec,omitempty"`
 	Types       []TypeDecl  `json:"types,omitempty"`
 	Start       string      `json:"start,omitempty"`
@@ -163,6 +164,17 @@ func (s *Spec) Render() string {
 		b.WriteString("%" + p.Assoc)
 		for _, t := range p.Toks {
 			b.WriteString(" " + t)
+		}
+		b.WriteString("\n")
+	}
+	for _, t := range s.LateTokens {
+		b.WriteString("%token ")
+		if t.Tag != "" {
+			b.WriteString("<" + t.Tag + "> ")
+		}
+		b.WriteString(t.Name)
+		if t.Num != 0 {
+			fmt.Fprintf(&b, " %d", t.Num)
 		}
 		b.WriteString("\n")
 	}
